@@ -38,7 +38,7 @@ ASSUMPTIONS = [
     "a loop that never returns to Python bytecode is only caught by the 120 s wall-clock backstop",
 ]
 
-STEP_LIMIT = 30_000_000
+STEP_LIMIT = 12_000_000  # ~40x the largest fault-free run of the workload (<= 0.3 M steps); the e2e baseline document needs 0.93 M
 METAS = ["poetry", "pdm", "setup", "none"]
 
 
@@ -207,7 +207,8 @@ def run_spec(args: dict, sandbox: str) -> dict:
     outcome = "?"
     if res["base_exception"]:
         if res["exception"] == "StepBudgetExceeded":
-            violations.append({"kind": "hang-steps", "locus": budget_locus(budget), "detail": f"no termination within {budget.limit} steps; argv={argv}"})
+            # one class for all step-budget hangs: where the budget happens to trip is not a stable locus
+            violations.append({"kind": "hang-steps", "locus": "", "detail": f"no termination within {budget.limit} steps (tripped in {budget_locus(budget)}); argv={argv}"})
             outcome = "hang"
         else:
             violations.append({"kind": "harness-base-exception", "locus": res["exception"], "detail": res["exception_msg"]})
@@ -330,6 +331,20 @@ ENUM_DOCS: list[dict] = []
 
 
 # ---------------------------------------------------------------------- shrinking
+def pre_minimise(spec: dict, cls: str) -> dict:
+    """While shrinking a hang, candidates run under a reduced step limit (still >> any terminating run of
+    a smaller document); the driver re-confirms the result under the full limit."""
+    if cls.startswith("hang-steps"):
+        return dict(spec, step_limit=1_500_000)
+    return spec
+
+
+def post_minimise(spec: dict, cls: str) -> dict:
+    if cls.startswith("hang-steps"):
+        return dict(spec, step_limit=STEP_LIMIT)
+    return spec
+
+
 def spec_size(spec: dict) -> dict:
     return {"doc_nodes": docgen.count_nodes(spec["doc"]) if spec.get("doc") is not None else None, "payload_bytes": len(payload_of(spec)), "faults": len(spec.get("applied") or [])}
 
